@@ -105,13 +105,60 @@ def records_of(cat) -> dict:
     return out
 
 
+class InjectedFault(RuntimeError):
+    """Raised by the wrappers that inject a fault into a pool worker / the writer."""
+
+
+class inject:
+    """Make split_into_patches (where="worker") or CatalogWriter.process_patches
+    (where="writer") raise when it meets the record with weight ``marker``.  The
+    deterministic runtime runs pool tasks and the writer 'process' inside this
+    interpreter, so patching the module attributes reaches them."""
+
+    def __init__(self, yaw, where, marker) -> None:
+        import yaw.catalog.catalog as cc
+
+        self.cc, self.where, self.marker = cc, where, marker
+
+    def __enter__(self):
+        cc, marker = self.cc, self.marker
+        if self.where == "worker":
+            self.orig = orig = cc.split_into_patches
+
+            def split_into_patches(chunk, patch_centers):
+                if marker in chunk["weights"]:
+                    raise InjectedFault(f"worker fault at record {marker}")
+                return orig(chunk, patch_centers)
+
+            cc.split_into_patches = split_into_patches
+        elif self.where == "writer":
+            self.orig = orig = cc.CatalogWriter.process_patches
+
+            def process_patches(writer, patches):
+                if any(marker in ch["weights"] for ch in patches.values()):
+                    raise InjectedFault(f"writer fault at record {marker}")
+                return orig(writer, patches)
+
+            cc.CatalogWriter.process_patches = process_patches
+        return self
+
+    def __exit__(self, *a):
+        if self.where == "worker":
+            self.cc.split_into_patches = self.orig
+        elif self.where == "writer":
+            self.cc.CatalogWriter.process_patches = self.orig
+        return None
+
+
 def run_creation(yaw, root: Path, *, L, CS, W, pre="absent", overwrite=False, fault=None, fault_chunk=0,
-                 empty_centre=False, mode="apply", chooser=None, seed=0):
+                 empty_centre=False, mode="apply", chooser=None, seed=0, where="reader"):
     """Run Catalog.from_dataframe for the scenario on the deterministic
     runtime.  Returns a dict with the projection onto the spec's terminal state
     and everything the oracles need."""
     path = prepare_path(yaw, root, pre)
     fault_row = (fault_chunk - 1) * CS if fault_chunk else None
+    if where != "reader":
+        fault = None        # the input is clean, the fault is injected into the helper
     df = input_frame(L, fault, fault_row, patch_ids=(mode == "divide"))
     kw = dict(ra_name="ra", dec_name="dec", weight_name="w", redshift_name="z", overwrite=overwrite, chunksize=CS, max_workers=W)
     if mode == "apply":
@@ -127,7 +174,8 @@ def run_creation(yaw, root: Path, *, L, CS, W, pre="absent", overwrite=False, fa
         return dict(records=records_of(cat), keys=list(cat.keys()),
                     centers=cat.get_centers().data.tolist(), num=list(cat.get_num_records()))
 
-    sched, outcome = detrt.run_main(main, chooser=chooser, seed=seed)
+    with inject(yaw, where if fault_chunk else "reader", (fault_row or 0) + 1):
+        sched, outcome = detrt.run_main(main, chooser=chooser, seed=seed, describe=describe_item)
     after = snapshot(path)
     res = dict(path=path, before=before, after=after, kind=outcome[0], sched=sched, df=df)
     if outcome[0] == "ok":
@@ -144,6 +192,32 @@ def run_creation(yaw, root: Path, *, L, CS, W, pre="absent", overwrite=False, fa
         res["reopen"] = None
         res["reopen_error"] = repr(exc)
     return res
+
+
+def describe_item(item) -> dict:
+    """Projection of a queue item for the trace (spec/CreatePipelineTrace.tla):
+    the record ids (= weights) it carries and those filed under patch 0."""
+    if not isinstance(item, dict):
+        return {}
+    recs, p0 = [], []
+    for pid, chunk in item.items():
+        ws = [int(w) for w in chunk["weights"]]
+        recs += ws
+        if int(pid) == 0:
+            p0 += ws
+    return dict(recs=sorted(recs), p0=sorted(p0))
+
+
+TRACE_FIELDS = dict(recs=[], p0=[], nt=-1, alive=False, failed=False, outcome="", loaded="", dir="", ids=False, exc="")
+
+
+def trace_of(res, proj) -> list[dict]:
+    """The runtime's event log of the creation (up to the return of
+    from_dataframe) followed by the observed terminal state."""
+    evs = [dict(e) for e in res["sched"].log]
+    outcome, loaded, dirstate, ids = proj
+    evs.append(dict(ev="final", outcome=outcome, loaded=loaded, dir=dirstate, ids=bool(ids)))
+    return evs
 
 
 def expected_records(df, empty_centre=False) -> dict:
